@@ -35,7 +35,7 @@ THEOREMS = {
                                      'Chess.Props.C10_capacities', 'Chess.Props.C10_piece_lists'])],
     'C12': [('ChessVerif.Props.C12', ['Chess.Props.C12_kpk', 'Chess.Props.C12_mirror', 'Chess.Props.C12_certificate', 'Chess.Props.C12_index', 'Chess.Props.C12_normalize'])],
     'C13': [('ChessVerif.Props.C13', ['Chess.Props.C13_geometry', 'Chess.Props.C13_normSq_mirror', 'Chess.Props.C13_combine_neg', 'Chess.Props.C13_phase_symm']),
-            ('ChessVerif.Props.C13General', ['Chess.Props.C13_general_branch', 'Chess.Props.C13_no_endgame', 'Chess.Props.C13_kpk', 'Chess.Props.C13_simple_endgame', 'Chess.Props.C13_single_piece_endgame', 'Chess.Props.C13_class_of_value', 'Chess.Props.C13_endgame_dispatch_mirror', 'Chess.Props.C13_evalPure_partial']),
+            ('ChessVerif.Props.C13General', ['Chess.Props.C13_general_branch', 'Chess.Props.C13_no_endgame', 'Chess.Props.C13_kpk', 'Chess.Props.C13_simple_endgame', 'Chess.Props.C13_single_piece_endgame', 'Chess.Props.C13_pair_endgame', 'Chess.Props.C13_class_of_value', 'Chess.Props.C13_endgame_dispatch_mirror', 'Chess.Props.C13_evalPure_partial']),
             ('ChessVerif.Props.C13Mirror', ['Chess.Props.C13_pawn_score_mirror', 'Chess.Props.C13_king_safety_mirror', 'Chess.Props.C13_king_shelter_mirror', 'Chess.Props.C13_pawn_attacks_mirror', 'Chess.Props.C13_guard_phase_wf', 'Chess.Props.C13_counts_mirror', 'Chess.Props.C13_phase_mirror', 'Chess.Props.C13_material_mirror', 'Chess.Props.C13_king_mirror', 'Chess.Props.C13_king_distance_mirror', 'Chess.Props.C13_bitboards_mirror'])],
     'C14': [('ChessVerif.Props.C14', ['Chess.Props.C14_cache_transparent', 'Chess.Props.C14_bounded', 'Chess.Props.C14_reachable', 'Chess.Props.C14_constants', 'Chess.Props.C14_cap_partial'])],
     'C15': [('ChessVerif.Props.C15', ['Chess.Props.C15_capture_quiet_full', 'Chess.Props.C15_gives_check_full', 'Chess.Props.C15_reachable', 'Chess.Props.C15_gives_check_noncastle', 'Chess.Props.C15_gives_check', 'Chess.Props.C15_gives_check_ordinary', 'Chess.Props.C15_quiet', 'Chess.Props.C15_castling', 'Chess.Props.C15_capture_rules'])],
